@@ -192,6 +192,25 @@ theorem C03_model_meets_spec {al bl : List Entry} {a : Access}
     · simp only [if_true]
       cases r.proto <;> simp [refusal]
 
+/-- The blocked-hosts decision is the same for every class of the question (IN,
+CH, HS, NONE, ANY, anything) and depends on the type only through the rule
+engine's verdict on (name, type): two requests that differ only in class and
+type fields get the same action; and a request for a blocked name is refused
+whatever its class and type. -/
+theorem C03_blocked_host_any_class_type (a : Access) (r : Request) (qclass qtype : Nat) :
+    handleBefore a { r with qclass := qclass, qtype := qtype } = handleBefore a r ∧
+    (nameBlocked r = true → (handleBefore a { r with qclass := qclass, qtype := qtype }).1 ≠ .pass) := by
+  have h1 : handleBefore a { r with qclass := qclass, qtype := qtype } = handleBefore a r := rfl
+  refine ⟨h1, ?_⟩
+  intro hn
+  rw [h1]
+  have hb : r.nq = 1 ∧ r.hostBlocked = true := by simpa [nameBlocked] using hn
+  unfold handleBefore
+  simp only [hb, and_self, if_true]
+  split
+  · cases r.proto <;> simp [preBlockedResponse]
+  · cases r.proto <;> simp [preBlockedResponse]
+
 /-! ### call order of the real hook (facts regenerated from the source tree) -/
 
 /-- In the current source of `(*Server).HandleBefore` the ClientID is determined
@@ -297,10 +316,10 @@ example :
       excluded al bl (.v4 0x0a000001) [] = false ∧
       excluded al bl (.v4 0x0b000001) [] = true ∧
       excluded al bl (.v4 0x0b000001) [99, 108, 105] = false ∧
-      (handleBefore a ⟨.udp, .v4 0x0b000001, .ok [], 1, false⟩).1 = .drop ∧
-      (handleBefore a ⟨.tcp, .v4 0x0b000001, .ok [], 1, false⟩).1 = .refused ∧
-      (handleBefore a ⟨.tls, .v4 0x0b000001, .ok [99, 108, 105], 1, false⟩) = (.pass, [99, 108, 105]) ∧
-      (handleBefore a ⟨.tls, .v4 0x0a000001, .ok [], 1, true⟩).1 = .refused := by
+      (handleBefore a ⟨.udp, .v4 0x0b000001, .ok [], 1, false, 1, 1⟩).1 = .drop ∧
+      (handleBefore a ⟨.tcp, .v4 0x0b000001, .ok [], 1, false, 1, 1⟩).1 = .refused ∧
+      (handleBefore a ⟨.tls, .v4 0x0b000001, .ok [99, 108, 105], 1, false, 1, 1⟩) = (.pass, [99, 108, 105]) ∧
+      (handleBefore a ⟨.tls, .v4 0x0a000001, .ok [], 1, true, 1, 1⟩).1 = .refused := by
   exact ⟨_, rfl, by decide, by decide, by decide, by decide, by decide, by decide, by decide⟩
 
 /-- ClientIDs in the lists are compared as written: the entry `MyPhone` does
